@@ -324,6 +324,9 @@ func c11Gen(g *core.Gen) {
 		g.Emit(&c11Case{Kind: "structured", N: n})
 	}
 	g.Emit(&c11Case{Kind: "times"})
+	for n := 1; n <= 5; n++ {
+		g.Emit(&c11Case{Kind: "chain", N: n})
+	}
 	// every field element against every boundary value, as one outer product in each orientation (sharded by
 	// the high nibble of the element so the chunks run in parallel)
 	for lo := 0; lo < 16; lo++ {
@@ -447,6 +450,100 @@ func c11Run(ci interface{}, r *core.Rec) {
 		}
 		r.AddStates(cnt)
 		r.Outcome("churn")
+		r.NontrivialCase()
+	case "chain":
+		// results as operands: every sequence of 4 operations in which each result is the next call's operand. After each
+		// call the result is compared with the reference and EVERY value made so far (inputs and earlier results) is
+		// compared again: a result must be as good an operand as a freshly built matrix
+		n := int(c.N)
+		mk := func(salt int) lin.M {
+			for try := 0; ; try++ {
+				m := lin.New(n, n)
+				for i := range m {
+					for j := range m[i] {
+						m[i][j] = gf16.Exp2(salt*131+try*977+(i*7+1)*(j*5+3)) ^ uint16(i*j)
+					}
+				}
+				if !lin.Singular(m) {
+					return m
+				}
+			}
+		}
+		aRef, bRef := mk(1), mk(2)
+		vRef := lin.New(n, 1)
+		for i := range vRef {
+			vRef[i][0] = gf16.Exp2(i*5 + 3)
+		}
+		const nOps = 6
+		cnt := 0
+		for code := 0; code < nOps*nOps*nOps*nOps; code++ {
+			type val struct {
+				g   gf2p16.Matrix
+				ref lin.M
+			}
+			a, b, v := toG(aRef), toG(bRef), toG(vRef)
+			live := []val{{a, aRef}, {b, bRef}, {v, vRef}}
+			cur, curRef := a, aRef
+			seq := []int{code % nOps, code / nOps % nOps, code / nOps / nOps % nOps, code / nOps / nOps / nOps}
+			for step, op := range seq {
+				var res gf2p16.Matrix
+				var resRef lin.M
+				var err error
+				pi := core.Catch(func() {
+					switch op {
+					case 0:
+						res, err = cur.RowReduceForInverse(toG(lin.Identity(n)))
+						resRef = lin.Solve(curRef, lin.Identity(n))
+					case 1:
+						res, err = cur.RowReduceForInverse(b)
+						resRef = lin.Solve(curRef, bRef)
+					case 2:
+						res, err = cur.Inverse()
+						resRef = lin.Solve(curRef, lin.Identity(n))
+					case 3:
+						res = cur.Times(b)
+						resRef = lin.Mul(curRef, bRef)
+					case 4:
+						res, err = b.RowReduceForInverse(cur)
+						resRef = lin.Solve(bRef, curRef)
+					case 5:
+						res, err = cur.RowReduceForInverse(v)
+						resRef = lin.Solve(curRef, vRef)
+					}
+				})
+				cnt++
+				r.AddTransitions(1)
+				if pi != nil {
+					r.Violatef("chain-panic:"+pi.Frame, "n=%d ops %v step %d: %s", n, seq, step, pi.Value)
+					break
+				}
+				if err != nil {
+					r.Violatef("chain-error-for-nonsingular", "n=%d ops %v step %d: %v", n, seq, step, err)
+					break
+				}
+				if !lin.Equal(fromG(res, len(resRef), len(resRef[0])), resRef) {
+					r.Violatef("chain-result-wrong", "n=%d ops %v: the result of step %d (operation %d on the previous result) differs from the reference", n, seq, step, op)
+					break
+				}
+				bad := false
+				for k, lv := range live {
+					if !lin.Equal(fromG(lv.g, len(lv.ref), len(lv.ref[0])), lv.ref) {
+						r.Violatef("operand-modified", "n=%d ops %v: after step %d (operation %d) value #%d (0..2 inputs, then earlier results) no longer holds what it held", n, seq, step, op, k)
+						bad = true
+						break
+					}
+				}
+				if bad {
+					break
+				}
+				live = append(live, val{res, resRef})
+				if op != 5 {
+					cur, curRef = res, resRef
+				}
+			}
+		}
+		r.AddStates(cnt)
+		r.Outcome(fmt.Sprintf("chain %d", n))
 		r.NontrivialCase()
 	case "times_all":
 		// (column of 4096 consecutive field elements) x (row of boundary values): the 4096 x B product holds every a*b;
@@ -593,7 +690,7 @@ func init() {
 	core.Register(&core.Prop{
 		ID:    "C11",
 		Level: "model_checking",
-		Rule: "bounded-exhaustive matrices: EVERY n x n matrix over an alphabet (n=1,2 over {0,1,2,3,0x100b,0xffff}; n=3 over {0,1,2,0xffff}; n=4 over {0,1}, thorough over {0,1,2} = 3^16); every permutation matrix and permutation x diagonal for n<=7; for n in 5..40,100(,300): Vandermonde, Cauchy, triangular, rank n-1 with the dependent row at every position, a needed row swap at every pivot position (adjacent and with the last row), a zero column at every position; RowReduceForInverse with N=I and a non-square N; Times on every pair of shapes <=3x3x3 over a 4-symbol alphabet and on 2 x k x 3 / 3 x k x 2 products for inner dimensions k around every power of two from 16 to 512 (dense rows, one zero per row, one non-zero per row); every field element times every boundary value (2^k, 2^k-1, 2^k+1, ^2^k, 0, 1, 0xffff) in both operand orders as 4096 x 1 x B outer products. " +
+		Rule: "bounded-exhaustive matrices: EVERY n x n matrix over an alphabet (n=1,2 over {0,1,2,3,0x100b,0xffff}; n=3 over {0,1,2,0xffff}; n=4 over {0,1}, thorough over {0,1,2} = 3^16); every permutation matrix and permutation x diagonal for n<=7; for n in 5..40,100(,300): Vandermonde, Cauchy, triangular, rank n-1 with the dependent row at every position, a needed row swap at every pivot position (adjacent and with the last row), a zero column at every position; RowReduceForInverse with N=I and a non-square N; Times on every pair of shapes <=3x3x3 over a 4-symbol alphabet and on 2 x k x 3 / 3 x k x 2 products for inner dimensions k around every power of two from 16 to 512 (dense rows, one zero per row, one non-zero per row); every field element times every boundary value (2^k, 2^k-1, 2^k+1, ^2^k, 0, 1, 0xffff) in both operand orders as 4096 x 1 x B outer products; every sequence of 4 operations {RowReduceForInverse with N = I / B / a column, Inverse, Times, as right operand} in which each result is the next call's operand (n = 1..5), every value made so far compared again after each call. " +
 			"Every other operand is built by NewMatrixFromSlice over a window of a reused arena that is overwritten right after construction. Oracle: reference determinant (cofactor) and adjugate for n<=4, reference elimination rank + products for larger n; operands compared element-wise before/after each call, and the operands of the last 12 calls (successful or failed) again after every later call. non-trivial = chunk containing both singular and non-singular matrices / structured family",
 		Assumptions: []string{"ref/lin uses a different elimination order (last candidate pivot) and cofactor expansion; it shares only ref/gf16 with nothing of gopar"},
 		NewCase:     func() interface{} { return &c11Case{} },
